@@ -40,13 +40,13 @@ PROPS = {
     "C01": {
         "level": "proof",
         "claim": "Verus proves the real try_from/TryFrom/into/Into bodies against the property's own statement for every enum of each shape and repr (unbounded over enums and arguments); the emission of the tables those proofs assume is checked per corpus instance (bounded, labelled so)",
-        "layers": ["T", "I"],
+        "layers": ["T", "G", "I"],
         "explanation": "try_from/TryFrom/into/Into bodies taken from the real expansion are verified by Verus against `res == Some(E(n)) iff n is a declared discriminant` for an arbitrary enum of each shape and each of the 12 reprs; round-trip corollaries are verified callers; the table/constant emission is checked on corpus instances over the full repr domain (8/16-bit) or boundary+sampled values (wider).",
     },
     "C03": {
         "level": "proof",
         "claim": 'Verus proves table-mode as_str and the Display/Debug/IntoStr forwarders for every enum, shape and repr incl. the index arithmetic; match-mode arms are per-enum data checked exhaustively per corpus instance (bounded)',
-        "layers": ["T", "I"],
+        "layers": ["T", "G", "I"],
         "explanation": "table-mode as_str (both shapes) is verified to return names()[rank(self)] including the wrapping_sub/unsigned-cast index arithmetic for every repr; Display/Debug/IntoStr are verified to pass exactly that string on. match-mode arms and the __NAME table contents are per-enum data and are checked exhaustively over variants on corpus instances (bounded over enums).",
     },
     "C04": {
@@ -58,7 +58,7 @@ PROPS = {
     "C05": {
         "level": "proof",
         "claim": 'Verus proves next/next_back (both shapes) return the least greater / greatest smaller variant and None exactly at MAX/MIN for arbitrary run tables incl. type-limit wrap; MIN/MAX emission per corpus instance (bounded)',
-        "layers": ["T", "I"],
+        "layers": ["T", "G", "I"],
         "explanation": "next/next_back bodies (gapless and with holes) verified against `least variant greater than self / None iff self is the maximum` plus rank(next) == rank+1, for arbitrary run tables including runs touching the type limits; MIN/MAX emission checked on instances.",
     },
     "C02": {
@@ -71,7 +71,7 @@ PROPS = {
     "C06": {
         "level": "proof",
         "claim": 'representation-invariant proof for the next_and_back iterator (holds after any history) and verified constructor + wrapper contracts for the std-backed modes; std iterators are trusted by stated contracts; histories on instances are a bounded complement',
-        "layers": ["T", "I", "S"],
+        "layers": ["T", "R", "I", "S"],
         "explanation": "next_and_back mode: data-structure proof — iter() establishes view == all variants ascending, next/next_back/size_hint/len are verified to pop the front/back of the abstract view and preserve the representation invariant, so the claim holds after any finite history and fusedness is `len == 0 ==> None, unchanged`. range/table/table_inline modes: the constructor is verified to build the std iterator over exactly the ascending variants (transmute closure precondition, __ENUM well-formedness) and each wrapper method is verified against the same pop-front/pop-back/nth/last/len contract given the assumed contract of the std iterator; fold/rfold are checked structurally to forward verbatim. Defaults of Iterator (collect, count, rev, ...) are std's. Instances are run natively against a VecDeque model over designed + seeded histories (bounded).",
         "assumptions": ["std's Copied<slice::Iter>, Map<RangeInclusive>, array::IntoIter are correct double-ended exact-size fused iterators over their source (contracts stated in contracts/shims.rs.tmpl)",
                         "Iterator/DoubleEndedIterator default methods are correct for any conforming next/next_back/size_hint"],
@@ -79,7 +79,7 @@ PROPS = {
     "C07": {
         "level": "proof",
         "claim": "Verus proves all five uniform range() bodies against `view == variants between a and b, empty if a > b, no panic` for every enum, shape and repr; the iterator behaviour afterwards is C06's",
-        "layers": ["T", "I", "S"],
+        "layers": ["T", "G", "R", "I", "S"],
         "explanation": "all five uniform range() bodies (gapless x {range, next_and_back, table}, holes x {next_and_back, table}) verified: result view == variants with rank in [rank(a), rank(b)] when a <= b, empty otherwise, no panic (slice bounds are Verus obligations), both MaybeUninit indices initialised on every path, index arithmetic == rank for every repr; the result is the same iterator struct as iter(), so C06's invariant/wrapper contracts carry it through any history. Instances: all ordered pairs for small enums, designed + seeded pairs otherwise, with histories (bounded).",
         "assumptions": ["as C06"],
     },
@@ -104,6 +104,16 @@ def collect(pid, tier, seed):
     if "I" in p["layers"]:
         o, m = driver.collect_I(pid, tier, seed, include_rejected=p.get("rejected", False))
         m["_layer"] = "I (instances, native, bounded)"
+        obs += o
+        metas.append(m)
+    if "R" in p["layers"]:
+        o, m = driver.collect_R(pid, tier)
+        m["_layer"] = "R (kani on the real Features::resolve)"
+        obs += o
+        metas.append(m)
+    if "G" in p["layers"]:
+        o, m = driver.collect_G(pid, tier)
+        m["_layer"] = "G (verus on generator slices)"
         obs += o
         metas.append(m)
     if "S" in p["layers"]:
